@@ -388,8 +388,45 @@ def run_threads(case, ctx, mon):
     mon.nontrivial(True)
 
 
+def run_bigkeys(case, ctx, mon):
+    """Keys and documents of 64 KiB and more (length-gated paths: memoised locations, threaded shingling): the SAME bytes objects
+    are added back to back to sketches that share a seed and differ in p, through add / update / add_ngram / update_ngram."""
+    from ..refs import hll_ref
+
+    s = sk()
+    rng = np.random.default_rng(case["stream"])
+    seed = case["seed"]
+    keys = [rng.bytes(n) for n in case["lengths"]]
+    sketches = {p: s.HyperLogLog(p, seed) for p in case["ps"]}
+    model = {p: set() for p in case["ps"]}
+    for rnd in range(2):
+        for k in keys:
+            for p in (case["ps"] if rnd == 0 else case["ps"][::-1]):
+                mon.api(sketches[p].add, k)
+                model[p].add(k)
+    doc = rng.bytes(case["doc_len"])
+    n = case["ngram"]
+    wins = set(hll_ref.windows(doc, n))
+    for p in case["ps"]:
+        if p % 2:
+            mon.api(sketches[p].add_ngram, doc, n)
+        else:
+            mon.api(sketches[p].update_ngram, [doc], n)
+        model[p] |= wins
+    for p in case["ps"]:
+        want = hll_ref.registers_for(model[p], p, seed)
+        bad = np.flatnonzero(np.asarray(sketches[p].registers) != want)
+        mon.check(len(bad) == 0, "registers==model(distinct keys)", p=p, seed=seed, n_bad=int(len(bad)), first=bad[:4].tolist(),
+                  how="keys of 64 KiB.. added to several sketches back to back; one document with >= 65536 windows")
+    mon.count("bigkey_cases")
+    mon.count("windows_of_the_largest_document", len(wins))
+    mon.nontrivial(True)
+
+
 def gen_cases(ctx):
     rng = ctx.rng("cases")
+    yield {"type": "bigkeys", "seed": pick(rng, [0, 7]), "ps": [12, 16, 9], "lengths": [65535, 65536, 70001, 200000], "doc_len": 66000 + int(rng.integers(0, 9)),
+           "ngram": pick(rng, [3, 4, 7]), "stream": int(rng.integers(0, 2**31))}
     for rep in range(3 if ctx.quick else 8):
         # p = 7: 128 registers, thousands of keys per thread -> every register is contended
         yield {"type": "threads", "p": pick(rng, [7, 8]), "seed": pick(rng, [0, 5]), "threads": 8, "keys": 3000, "stream": int(rng.integers(0, 2**31))}
@@ -413,6 +450,8 @@ def run_case(case, ctx, mon):
         run_history(case, ctx, mon)
     elif t == "crafted":
         run_crafted(case, ctx, mon)
+    elif t == "bigkeys":
+        run_bigkeys(case, ctx, mon)
     else:
         run_exhaustive(case, ctx, mon)
 
@@ -434,5 +473,6 @@ def floors(mon, ctx):
     mon.floor("crafted (p, rank) pairs", len(mon.classes["crafted_rank"]), sum(64 - p + 1 for p in range(7, 17)))
     mon.floor("exhaustive key sets", mon.counters["exhaustive_sets"], 4)
     mon.floor("values of p", len(mon.classes["p"]), 10)
+    mon.floor("windows of the largest document fed to add_ngram", mon.counters["windows_of_the_largest_document"], 65536)
     mon.floor("query() observations in mid-history", mon.counters["mid_history_queries"], 200)
     mon.floor("same-register second keys after a maximum-rank key", mon.counters["crafted_same_register_after_max_rank"], 3)
